@@ -174,3 +174,71 @@ class DulReactorTask(Task):
              detail=repr([e.name for e in pre]))
         if kind == "return" and g.get("in_loop"):
             self.iteration_done(I, "returned")
+
+
+ITE = f"{DUL}:DULServiceProvider._is_transport_event"
+
+
+class TransportEventTask(Task):
+    """DULServiceProvider._is_transport_event on its real body (the reactor contract above uses it by this contract): the socket
+    is read at most once and only after `ready` reported data (the read itself is bounded by the socket timeouts - C03/C08); in
+    Sta13, with nothing left to read, the provider's own socket is closed exactly once (which reports Evt17); in any other state
+    with nothing to read NOTHING happens; the result is True exactly when it read or closed."""
+    name = "DULServiceProvider._is_transport_event"
+    functions = [ITE]
+    shard = False
+
+    def config(self, repo):
+        c = Config()
+        c.ob_prefix = "C05/"
+        c.summaries[f"{DUL}:DULServiceProvider._read_pdu_data"] = lambda I, a, k: I.trace.append(Ev("read_pdu_data"))
+
+        def env_call(I, env, method, args, kw):
+            if env.path == "dul.socket" and method == "close":
+                I.trace.append(Ev("socket.close"))
+                return None
+            return NotImplemented
+        c.env_call = env_call
+
+        def env_attr(I, env, name):
+            from pyvc.values import Volatile
+            if env.path == "dul.socket" and name == "ready":
+                v = I.choose(2, "socket.ready") == 1
+                I.trace.append(Ev("ready?", (v,)))
+                return Volatile(v)
+            return NotImplemented
+        c.env_attr = env_attr
+        return c
+
+    def body(self, I):
+        me = Env("dul", cls=I.repo.cls(f"{DUL}:DULServiceProvider"))
+        sm = Env("dul.state_machine")
+        sta13 = I.choose(2, "state") == 1
+        sm.attrs["current_state"] = "Sta13" if sta13 else SV(z3.String("state"), "str")
+        if not sta13:
+            I.assume(z3.String("state") != z3.StringVal("Sta13"))
+        has_socket = sta13 or I.choose(2, "a socket exists") == 0
+        sock = Env("dul.socket")
+        sock.truth = True
+        me.attrs.update(state_machine=sm, socket=sock if has_socket else None)
+        kind, val = I.run_function(I.repo.func(ITE), [me])
+        P5, P8 = f"C05/{ITE}", f"C08/{ITE}"
+        I.ob(f"{P5}/no-exception", kind == "return", detail=f"{kind}:{val!r}")
+        if kind != "return":
+            return
+        tr = [e for e in I.trace if e.name in ("read_pdu_data", "socket.close", "ready?")]
+        names = [e.name for e in tr]
+        reads = [i for i, e in enumerate(tr) if e.name == "read_pdu_data"]
+        closes = [i for i, e in enumerate(tr) if e.name == "socket.close"]
+        ready = [e for e in tr if e.name == "ready?"]
+        I.ob(f"{P8}/the-socket-is-read-at-most-once-and-only-after-ready-reported-data",
+             len(reads) <= 1 and (not reads or (len(ready) >= 1 and ready[-1].args[0] is True and names.index("ready?") < reads[0])), detail=repr(names))
+        I.ob(f"{P5}/ready-is-asked-at-most-once", len(ready) <= 1, detail=repr(names))
+        got_data = bool(ready) and ready[0].args[0] is True
+        I.ob(f"{P5}/data-that-ready-reported-is-read", (len(reads) == 1) == got_data, detail=repr(names))
+        I.ob(f"{P5}/the-socket-is-closed-exactly-when-nothing-is-left-to-read-in-Sta13", (len(closes) == 1) == (sta13 and not got_data) and len(closes) <= 1,
+             detail=f"Sta13={sta13}: {names}")
+        res = I.as_bool(val)
+        I.ob(f"{P5}/true-exactly-when-it-read-or-closed", res is (bool(reads) or bool(closes)), detail=f"{val!r}: {names}")
+        sets = [e for e in I.trace if e.name == "setattr" and e.args[0] == "dul" and e.args[1] != "socket"]
+        I.ob(f"{P5}/changes-nothing-of-the-provider-itself", not sets, detail=repr(sets))
